@@ -5,6 +5,7 @@
 //!
 //! The harness only measures and converts units; every law that is checked lives in TLA+.
 
+mod geom;
 mod obs;
 mod optrace;
 mod states;
@@ -93,6 +94,10 @@ fn main() {
     let (cmd, m) = args_map();
     match cmd.as_str() {
         "opt" => cmd_opt(&m),
+        "debug-state" => geom::debug_state(m.get("line").expect("--line")),
+        "pairs" => geom::pairs(m.get("in").expect("--in"), m.get("out").expect("--out")),
+        "tables" => geom::tables(m.get("out").expect("--out")),
+        "crystal" => geom::crystal(m.get("in").expect("--in"), m.get("out").expect("--out")),
         _ => {
             eprintln!("usage: pvh opt --out DIR [--tier quick|thorough] [--seed N] [--suites a,b]");
             std::process::exit(2);
